@@ -129,7 +129,8 @@ func TestC09Requests(t *testing.T) {
 					head += 2
 				}
 				pclasses := []string{"small", "small", "w1", "w2", "w3", "empty", "nil"}
-				if thorough {
+				if thorough || rapid.IntRange(0, 7).Draw(rt, "overMaxAllowed") == 0 {
+					// (rare in the quick tier: 256 MiB of zeroes per case)
 					pclasses = append(pclasses, "over-max")
 				}
 				overMax := false
